@@ -155,9 +155,79 @@ def check_split_operators(sc, frac, active=False):
     return (dev, "<= 1e-8 K") if not dev <= 1e-8 else None
 
 
+def check_split_table(sc, k, frac):
+    """the medium given as the columns of a pit table (pandas Series); layer k is cut by shortening its row and appending a row for the
+    lower part, the table then sorted back into stratigraphic order - so the row labels read 0..k, n, k+1..n-1: same medium, same result"""
+    base = run_model(sc, False)
+    n = len(sc["thickness"])
+    tw_sc = split_scene(sc, k, frac, "flat")
+    tw_sc["series_labels"] = list(range(k + 1)) + [n] + list(range(k + 1, n))
+    tw = run_model(tw_sc, False)
+    dev = float(np.abs(np.asarray(base.data.values) - np.asarray(tw.data.values)).max())
+    return (dev, "<= 1e-8 K") if not dev <= 1e-8 else None
+
+
+def check_split_iadd(sc, k, fracs):
+    """the medium assembled from the top with `snowpack += layer`; layer k goes in as slabs made from one template layer whose thickness is
+    set before each addition (the additions copy what they are given): same medium, same result"""
+    import copy
+    from smrt import make_model, sensor_list
+    from smrt.core.snowpack import Snowpack
+    base = run_model(sc, False)
+    sp, atm = scenes.build(sc)
+    new = Snowpack()
+    for i, lay in enumerate(sp.layers):
+        if i != k:
+            new += lay
+            new.interfaces[-1] = copy.deepcopy(sp.interfaces[i])
+            continue
+        d = float(lay.thickness)
+        for j, f in enumerate(fracs):
+            lay.thickness = d * f
+            new += lay
+            new.interfaces[-1] = copy.deepcopy(sp.interfaces[i]) if j == 0 else Transparent_()
+    if sp.substrate is not None:
+        new += sp.substrate
+    tot = float(sum(l.thickness for l in new.layers))
+    want = float(sum(sc["thickness"]))
+    if abs(tot - want) > 1e-9 * want:
+        return (tot, f"total thickness {want}")
+    m = make_model(sc["emmodel"], "dort", rtsolver_options=dict(n_max_stream=sc["nmax"]))
+    tw = m.run(sensor_list.passive(sc["frequency"], [20., 40.]), new)
+    dev = float(np.abs(np.asarray(base.data.values) - np.asarray(tw.data.values)).max())
+    return (dev, "<= 1e-8 K") if not dev <= 1e-8 else None
+
+
+def Transparent_():
+    from smrt.interface.transparent import Transparent
+    return Transparent()
+
+
 def oracle(ctx, hints, effort):
     rng = ctx.np
     findings, evals = {}, 0
+    for it in range(2 if effort == "routine" else 8):
+        sc = scenes.random_scene(rng, nlayer=3 + it % 2, lossless=False, microstructure="exponential", atmosphere=False, substrate="flat", thick=(0.05, 0.5),
+                                 frequency=float(rng.choice([18.7e9, 36.5e9])))
+        sc["emmodel"], sc["nmax"] = "iba", 16
+        k = int(rng.integers(0, len(sc["thickness"]) - 1))
+        frac = round(float(rng.uniform(0.1, 0.9)), 3)
+        for name, fn in (("table", lambda: check_split_table(sc, k, frac)), ("iadd", lambda: check_split_iadd(sc, k, (0.5, 0.3, 0.2)))):
+            try:
+                evals += 2
+                r = fn()
+            except (AssertionError, Warning):
+                continue
+            except Exception as e:  # noqa
+                from smrt.core.error import SMRTError
+                if isinstance(e, (SMRTError, KeyError, IndexError)):
+                    r = (float("nan"), f"the cut medium is accepted as the uncut one is ({type(e).__name__}: {e})"[:200])
+                else:
+                    raise
+            if r is not None:
+                key = f"passive:split-{name}"
+                findings.setdefault(key, Finding(key, f"layer {k} cut " + ("as a row of a pit table" if name == "table" else "into slabs added with +=")
+                                                 + f": result differs ({r[0]:.3g})", {"kind": name, "scene": sc, "k": k, "frac": frac}, r[0], r[1]))
     for it in range(2 if effort == "routine" else 10):
         sc = scenes.random_scene(rng, lossless=False, microstructure="exponential", max_layers=3, atmosphere=False, substrate="flat", thick=(0.05, 0.5),
                                  frequency=float(rng.choice([10.65e9, 18.7e9])))
@@ -293,6 +363,9 @@ def oracle(ctx, hints, effort):
 
 
 def replay(inp, rp=None):
+    if inp.get("kind") in ("table", "iadd"):
+        r = check_split_table(inp["scene"], inp["k"], inp["frac"]) if inp["kind"] == "table" else check_split_iadd(inp["scene"], inp["k"], (0.5, 0.3, 0.2))
+        return Finding("?", "split changes result", inp, r[0], r[1]) if r else None
     if inp.get("kind") == "operators":
         r = check_split_operators(inp["scene"], inp["frac"])
         return Finding("?", "split with operators changes result", inp, r[0], r[1]) if r else None
